@@ -42,6 +42,7 @@ type c18Decl struct {
 	File    c18Val `short:"f" long:"file"`
 	Opt     string `long:"opt" optional:"1" optional-value:"x"`
 	OnlyS   bool   `short:"s"`
+	HidS    bool   `short:"z" hidden:"1"`
 	Add     c18Add `command:"add"`
 	Rm      c18Rm  `command:"rm" alias:"remove" subcommands-optional:"1"`
 	Hc      c18Hc  `command:"hidcmd" hidden:"1"`
